@@ -1,8 +1,709 @@
-use crate::common::Ctx;
-pub fn run(_ctx: &Ctx, _replay: Option<&serde_json::Value>) -> i32 {
-    eprintln!("not implemented");
-    2
+//! C01 — no input crashes the parse / evaluate / serialise / format pipeline; error locations lie
+//! inside the text they refer to.
+//!
+//! Every case runs in a crash-isolated worker process (`mc worker c01`) with a per-case wall
+//! clock cap: a panic is caught and reported by the worker, an abort / stack overflow / hang kills
+//! the worker and is attributed to the case in flight.
+
+use crate::alpha::words;
+use crate::common::*;
+use crate::proc::{Worker, WorkerAnswer, run_blots, scratch_file};
+use crate::tgen::*;
+use crate::wasmdrv::blots_wasm;
+use blots_core::environment::Environment;
+use blots_core::error::RuntimeError;
+use blots_core::expressions::{evaluate_pairs, pairs_to_expr, pairs_to_expr_with_comments, validate_portable_value};
+use blots_core::formatter::format_expr;
+use blots_core::functions::{BuiltInFunction, FunctionDef};
+use blots_core::heap::Heap;
+use blots_core::parser::{Rule, get_pairs};
+use blots_core::values::{FunctionArity, SerializableValue, Value};
+use indexmap::IndexMap;
+use pest::error::InputLocation;
+use serde_json::{Value as J, json};
+use std::cell::RefCell;
+use std::rc::Rc;
+
+// ---------------------------------------------------------------------------------------------
+// worker side
+
+struct Report {
+    problems: Vec<String>,
+    tags: Vec<&'static str>,
 }
-pub fn worker_case(_case: &serde_json::Value) -> serde_json::Value {
-    serde_json::json!({})
+
+impl Report {
+    fn new() -> Self {
+        Report { problems: vec![], tags: vec![] }
+    }
+    fn stage<R>(&mut self, name: &str, f: impl FnOnce() -> R) -> Option<R> {
+        match catch(f) {
+            Ok(r) => Some(r),
+            Err(p) => {
+                self.problems.push(format!("[{}] {}", name, p));
+                None
+            }
+        }
+    }
+}
+
+fn check_span(rep: &mut Report, what: &str, start: usize, end: usize, text: &str) {
+    let ok = start <= end && end <= text.len() && text.is_char_boundary(start) && text.is_char_boundary(end);
+    if !ok {
+        rep.problems.push(format!("[{}] error location {}..{} is outside the {}-byte text it refers to (or splits a character)", what, start, end, text.len()));
+    }
+}
+
+fn check_runtime_error(rep: &mut Report, e: &RuntimeError, stage: &str) {
+    if let (Some(span), Some(src)) = (&e.span, &e.source) {
+        check_span(rep, &format!("{} error span", stage), span.start_byte, span.end_byte, src);
+        rep.tags.push("error-with-span");
+    }
+    // rendering the report (ariadne) must not panic either
+    rep.stage(&format!("{} error display", stage), || format!("{}", e));
+}
+
+/// All the text / JSON stages for one value.
+fn value_stages(rep: &mut Report, v: &Value, heap: &Rc<RefCell<Heap>>, env: &Environment) {
+    rep.stage("stringify_internal", || v.stringify_internal(&heap.borrow()));
+    rep.stage("stringify_external", || v.stringify_external(&heap.borrow()));
+    rep.stage("stringify_for_display", || v.stringify_for_display(&heap.borrow()));
+    rep.stage("display", || format!("{}", v));
+    rep.stage("validate_portable_value", || validate_portable_value(v, &heap.borrow(), env).is_ok());
+    let sv = rep.stage("from_value", || SerializableValue::from_value(v, &heap.borrow()));
+    if let Some(Ok(sv)) = sv {
+        let text = rep.stage("to_json", || serde_json::to_string(&sv.to_json()));
+        if let Some(Ok(text)) = text {
+            let back = rep.stage("from_json", || serde_json::from_str::<J>(&text).map(|j| SerializableValue::from_json(&j)));
+            if let Some(Ok(sv2)) = back {
+                rep.stage("to_value", || {
+                    let mut h2 = Heap::new();
+                    sv2.to_value(&mut h2).is_ok()
+                });
+            }
+        }
+    }
+}
+
+fn source_case(text: &str, inputs: &J) -> Report {
+    let mut rep = Report::new();
+    // ---- parse
+    let parsed = rep.stage("get_pairs", || get_pairs(text).map(|p| p.count()));
+    match parsed {
+        None => return rep,
+        Some(Err(e)) => {
+            rep.tags.push("parse-error");
+            match e.location {
+                InputLocation::Pos(p) => check_span(&mut rep, "parse error position", p, p, text),
+                InputLocation::Span((s, t)) => check_span(&mut rep, "parse error span", s, t, text),
+            }
+            rep.stage("parse error display", || format!("{}", e));
+        }
+        Some(Ok(_)) => {
+            rep.tags.push("parse-ok");
+            // ---- AST conversion and formatting, statement by statement
+            rep.stage("pairs_to_expr + format_expr", || {
+                let mut problems = vec![];
+                if let Ok(pairs) = get_pairs(text) {
+                    for pair in pairs {
+                        if pair.as_rule() != Rule::statement {
+                            continue;
+                        }
+                        if let Some(first) = pair.into_inner().next() {
+                            if first.as_rule() == Rule::comment {
+                                continue;
+                            }
+                            let a = catch(|| pairs_to_expr(first.clone().into_inner()));
+                            if let Err(p) = &a {
+                                problems.push(format!("[pairs_to_expr] {}", p));
+                            }
+                            match catch(|| pairs_to_expr_with_comments(first.clone().into_inner())) {
+                                Err(p) => problems.push(format!("[pairs_to_expr_with_comments] {}", p)),
+                                Ok(Ok(expr)) => {
+                                    for w in [Some(1), Some(20), None] {
+                                        if let Err(p) = catch(|| format_expr(&expr, w)) {
+                                            problems.push(format!("[format_expr width {:?}] {}", w, p));
+                                        }
+                                    }
+                                }
+                                Ok(Err(_)) => {}
+                            }
+                        }
+                    }
+                }
+                problems
+            })
+            .into_iter()
+            .flatten()
+            .for_each(|p| rep.problems.push(p));
+            // ---- evaluation, statement by statement in one session (as evaluate_source does)
+            let heap = Rc::new(RefCell::new(Heap::new()));
+            let env = Rc::new(Environment::new());
+            let mut map: IndexMap<String, Value> = IndexMap::new();
+            if let Some(o) = inputs.as_object() {
+                for (k, j) in o {
+                    let loaded = rep.stage("input from_json/to_value", || SerializableValue::from_json(j).to_value(&mut heap.borrow_mut()));
+                    if let Some(Ok(v)) = loaded {
+                        map.insert(k.clone(), v);
+                    }
+                }
+            }
+            let rec = heap.borrow_mut().insert_record(map);
+            env.insert("inputs".to_string(), rec);
+            let stmts: Vec<pest::iterators::Pair<Rule>> = get_pairs(text).map(|p| p.collect()).unwrap_or_default();
+            for pair in stmts {
+                if pair.as_rule() != Rule::statement {
+                    continue;
+                }
+                let Some(inner) = pair.into_inner().next() else { continue };
+                if inner.as_rule() == Rule::comment {
+                    continue;
+                }
+                let res = rep.stage("evaluate_pairs", || evaluate_pairs(inner.into_inner(), Rc::clone(&heap), Rc::clone(&env), 0, text));
+                match res {
+                    None => break,
+                    Some(Err(e)) => {
+                        rep.tags.push("eval-error");
+                        check_runtime_error(&mut rep, &e, "evaluation");
+                        break;
+                    }
+                    Some(Ok(v)) => {
+                        rep.tags.push("eval-ok");
+                        value_stages(&mut rep, &v, &heap, &env);
+                    }
+                }
+            }
+        }
+    }
+    // ---- the wasm entry points (real source, native shim)
+    let utf16_len = text.encode_utf16().count();
+    let wasm_inputs = json!({});
+    if let Some(Ok(resp)) = rep.stage("wasm evaluate", || blots_wasm::evaluate(text, wasm_inputs.clone()).map_err(|e| e.message)) {
+        if let Some(range) = resp.get("error").and_then(|e| e.get("range")) {
+            let bad = |v: Option<&J>| v.and_then(|x| x.as_u64()).map(|x| x as usize > utf16_len).unwrap_or(false);
+            if bad(range.get("start")) || bad(range.get("end")) || bad(range.get("pos")) {
+                rep.problems.push(format!("[wasm evaluate] error range {} lies outside the text ({} UTF-16 units)", range, utf16_len));
+            }
+            let (s, e) = (range.get("start").and_then(|x| x.as_u64()), range.get("end").and_then(|x| x.as_u64()));
+            if let (Some(s), Some(e)) = (s, e) {
+                if s > e {
+                    rep.problems.push(format!("[wasm evaluate] error range {} is reversed", range));
+                }
+            }
+        }
+    }
+    rep.stage("wasm format_blots", || blots_wasm::format_blots(text, None).is_ok());
+    rep.stage("wasm format_blots width 10", || blots_wasm::format_blots(text, Some(10)).is_ok());
+    rep.stage("wasm tokenize", || blots_wasm::tokenize(text).is_ok());
+    rep.stage("wasm evaluate_inline_expressions", || blots_wasm::evaluate_inline_expressions(json!([text]), json!({"a": {"Number": 1.0}})).is_ok());
+    rep
+}
+
+fn builtin_case(name: &str, arg_sources: &[String]) -> Report {
+    let mut rep = Report::new();
+    let Some(f) = BuiltInFunction::from_ident(name) else {
+        rep.problems.push(format!("unknown built-in {}", name));
+        return rep;
+    };
+    let mut sess = Session::new();
+    let mut args: Vec<Value> = vec![];
+    for (i, src) in arg_sources.iter().enumerate() {
+        let n = format!("arg{}", i);
+        if !sess.run(&format!("{} = {}", n, src)).is_ok() {
+            // a value that cannot be bound by assignment (built-in function values): evaluate directly
+            match get_pairs(src).ok().and_then(|mut p| p.next()).and_then(|p| p.into_inner().next()) {
+                Some(inner) => match evaluate_pairs(inner.into_inner(), Rc::clone(&sess.heap), Rc::clone(&sess.env), 0, src) {
+                    Ok(v) => args.push(v),
+                    Err(_) => {
+                        rep.problems.push(format!("harness: cannot build argument {}", src));
+                        return rep;
+                    }
+                },
+                None => {
+                    rep.problems.push(format!("harness: cannot parse argument {}", src));
+                    return rep;
+                }
+            }
+        } else {
+            args.push(sess.env.get(&n).unwrap());
+        }
+    }
+    let heap = Rc::clone(&sess.heap);
+    let env = Rc::clone(&sess.env);
+    let call_src = format!("{}({})", name, arg_sources.join(", "));
+    let res = rep.stage("built-in call", || FunctionDef::BuiltIn(f).call(Value::BuiltIn(f), args.clone(), Rc::clone(&heap), Rc::clone(&env), 0, &call_src));
+    match res {
+        Some(Ok(v)) => {
+            rep.tags.push("builtin-ok");
+            value_stages(&mut rep, &v, &heap, &env);
+        }
+        Some(Err(e)) => {
+            rep.tags.push("builtin-error");
+            check_runtime_error(&mut rep, &e, "built-in");
+        }
+        None => {}
+    }
+    rep
+}
+
+/// JSON input documents: load like the CLI, then use every loaded value.
+fn json_case(doc: &str) -> Report {
+    let mut rep = Report::new();
+    let parsed = rep.stage("serde_json::from_str", || serde_json::from_str::<J>(doc));
+    let Some(Ok(j)) = parsed else {
+        rep.tags.push("json-invalid");
+        return rep;
+    };
+    rep.tags.push("json-valid");
+    let inputs = if j.is_object() { j.clone() } else { json!({"value_1": j}) };
+    let keys: Vec<String> = inputs.as_object().map(|o| o.keys().cloned().collect()).unwrap_or_default();
+    let mut prog = String::new();
+    for (i, k) in keys.iter().enumerate() {
+        let access = format!("inputs[{}]", crate::c14::str_src(k));
+        prog.push_str(&format!("t{i} = typeof({a})\ns{i} = to_string({a})\nu{i} = [{a}]\n", i = i, a = access));
+    }
+    let r1 = source_case(&prog, &inputs);
+    rep.problems.extend(r1.problems);
+    // functions: call them in several ways; every failure must carry a location inside its text
+    for k in &keys {
+        let access = format!("inputs[{}]", crate::c14::str_src(k));
+        for call in ["{f}(1)", "{f}()", "{f}(1, 2)", "{f}(\"s\", [1], null)", "[1, \"a\"] via {f}", "[1] where {f}", "2 into {f}", "map([1, 2], {f})", "reduce([1], {f}, 0)"] {
+            let p = call.replace("{f}", &access);
+            let r = source_case(&p, &inputs);
+            rep.problems.extend(r.problems.into_iter().map(|x| format!("{} (program {})", x, p)));
+        }
+    }
+    rep
+}
+
+/// wasm `evaluate` with inputs given in the serde form of SerializableValue.
+fn wasm_inputs_case(prog: &str, inputs: &J) -> Report {
+    let mut rep = Report::new();
+    rep.stage("wasm evaluate with inputs", || blots_wasm::evaluate(prog, inputs.clone()).is_ok());
+    rep.stage("wasm evaluate_inline_expressions with inputs", || blots_wasm::evaluate_inline_expressions(json!([prog, "f(1)", "a"]), inputs.clone()).is_ok());
+    rep
+}
+
+pub fn worker_case(case: &J) -> J {
+    let rep = (|| match case["t"].as_str().unwrap_or("") {
+        "src" => source_case(case["s"].as_str().unwrap_or(""), &json!({})),
+        "builtin" => {
+            let args: Vec<String> = case["a"].as_array().map(|a| a.iter().filter_map(|x| x.as_str().map(|s| s.to_string())).collect()).unwrap_or_default();
+            builtin_case(case["f"].as_str().unwrap_or(""), &args)
+        }
+        "json" => json_case(case["doc"].as_str().unwrap_or("")),
+        "wasm-inputs" => wasm_inputs_case(case["prog"].as_str().unwrap_or(""), &case["inputs"]),
+        _ => {
+            let mut r = Report::new();
+            r.problems.push("unknown case type".into());
+            r
+        }
+    })();
+    blots_core::functions::clear_function_call_stats();
+    json!({"p": rep.problems, "tags": rep.tags})
+}
+
+// ---------------------------------------------------------------------------------------------
+// supervisor side: case families
+
+fn value_pool(thorough: bool) -> Vec<&'static str> {
+    let mut v = vec![
+        "(0/0)", "inf", "(-inf)", "0", "(-0)", "1", "(-1)", "2", "0.5", "(-2.5)", "255", "9007199254740992", "1e30", "(-1e30)", "\"\"", "\"a\"", "\"\u{e9}\u{1f600}\"", "\"a,b\"", "true", "null", "[]", "[3, 1, 2]",
+        "[1, \"a\", null]", "[(0/0), 1]", "{}", "{a: 1, b: [2]}", "(x => x)", "((x, i) => i)", "((...r) => r)", "(x => nope)", "sum", "map",
+    ];
+    if thorough {
+        v.extend([
+            "3", "1e15", "1e-7", "5e-324", "1.7976931348623157e308", "(-9007199254740992)", "\"abc\"", "\" x \"", "\"1.5\"", "\"km\"", "false", "[1]", "[\"a\", \"b\"]", "[[1], [2, 3]]",
+            "[1, \"a\", 0, null, (0/0), 2, 1, \"a\", 0, null, (0/0), 2, 1, \"a\", 0, null, (0/0), 2, 1, \"a\", 0, null, (0/0), 2, 1]", "{\"\": 0}", "{k: {k: {}}}", "(() => 1)", "(x => x + \"s\")",
+            "((a?, b) => [a, b])", "sqrt", "(n => if n <= 0 then 0 else 1)", "\"{}\"", "\"{} {}\"", "[true, false]", "[{a: 1}, {a: 2}]", "1000000",
+        ]);
+    }
+    v
+}
+
+fn arities(f: BuiltInFunction) -> Vec<usize> {
+    match f.arity() {
+        FunctionArity::Exact(n) => vec![n],
+        FunctionArity::Between(a, b) => (a..=b).collect(),
+        FunctionArity::AtLeast(a) => (a.max(1)..=3).collect(),
+    }
+}
+
+fn source_alphabet() -> Vec<char> {
+    "()[]{}.,:;=>+-*/%^!<?#\"'`~_ \n\r\t\u{0}\u{feff}019eExbaifon\u{e9}\u{1f600}\u{2028}".chars().collect()
+}
+
+const TOKENS: [&str; 44] = [
+    "if", "then", "else", "true", "null", "and", "or", "not", "do", "return", "output", "via", "into", "where", "+", "-", "*", "/", "^", "!", "==", ".==", "<", "??", "&&", "(", ")", "[", "]", "{", "}", ",",
+    ":", "=", "=>", "...", "#", "//x", "\n", "0", "1e30", "\"s\"", "trueish", "\u{e9}",
+];
+
+fn nesting_family() -> Vec<(String, String)> {
+    let mut out = vec![];
+    for d in [1usize, 2, 4, 8, 16, 32, 64] {
+        let rep = |open: &str, close: &str, core: &str| format!("{}{}{}", open.repeat(d), core, close.repeat(d));
+        out.push((format!("parens-{}", d), rep("(", ")", "1")));
+        out.push((format!("list-{}", d), rep("[", "]", "1")));
+        out.push((format!("record-{}", d), rep("{k: ", "}", "1")));
+        out.push((format!("call-arg-{}", d), format!("id = x => x\noutput r = {}", rep("id(", ")", "1"))));
+        out.push((format!("lambda-body-{}", d), rep("x => ", "", "x")));
+        out.push((format!("lambda-applied-{}", d), format!("output r = {}", rep("(x => ", ")(1)", "x"))));
+        out.push((format!("conditional-{}", d), rep("if true then ", " else 0", "1")));
+        out.push((format!("conditional-cond-{}", d), rep("if ", " then true else false", "true")));
+        out.push((format!("do-block-{}", d), rep("do { return ", " }", "1")));
+        out.push((format!("prefix-{}", d), rep("-", "", "1")));
+        out.push((format!("not-{}", d), rep("not ", "", "true")));
+        out.push((format!("right-nested-binary-{}", d), rep("1 + (", ")", "1")));
+        out.push((format!("left-chain-{}", d), format!("1{}", " + 1".repeat(d))));
+        out.push((format!("power-chain-{}", d), format!("2{}", " ^ 1".repeat(d))));
+        out.push((format!("index-chain-{}", d), format!("{}{}", rep("[", "]", "1"), "[0]".repeat(d))));
+        out.push((format!("field-chain-{}", d), format!("{}{}", rep("{k: ", "}", "1"), ".k".repeat(d))));
+        out.push((format!("postfix-{}", d), format!("3{}", "!".repeat(d.min(4)))));
+        out.push((format!("spread-{}", d), rep("[...", "]", "[1]")));
+        out.push((format!("string-concat-{}", d), format!("\"a\"{}", " + \"b\"".repeat(d))));
+        out.push((format!("assignment-chain-{}", d), (0..d).map(|i| format!("v{} = ", i)).collect::<String>() + "1"));
+        out.push((format!("unclosed-{}", d), "(".repeat(d)));
+        out.push((format!("unopened-{}", d), ")".repeat(d)));
+        out.push((format!("comment-lines-{}", d), "// c\n".repeat(d)));
+    }
+    out
+}
+
+fn json_documents() -> Vec<String> {
+    let mut docs: Vec<String> = vec![];
+    let leaves = ["0", "-0.0", "1e308", "1e400", "-1e400", "5e-324", "9007199254740993", "123456789012345678901234567890", "\"\"", "\"a\"", "\"\\u0000\"", "\"\\ud83d\\ude00\"", "\"\u{e9}\"", "true", "false", "null", "[]", "{}"];
+    for l in leaves {
+        docs.push(l.to_string());
+        docs.push(format!("[{}]", l));
+        docs.push(format!("{{\"a\": {}}}", l));
+        docs.push(format!("{{\"a\": [{}, {{\"b\": {}}}]}}", l, l));
+        docs.push(format!("{{\"\": {}, \"a b\": {}, \"\\u00e9\": {}}}", l, l, l));
+    }
+    let fsrcs = [
+        "x => x + 1", "(x) => x + 1", "(x, y?) => [x, y]", "(...r) => r", "() => 1", "x => nope", "x => x +", "x =>", "=> x", "x", "1 + 2", "sum", "map", "print", "time_now", "", " ", "x => x via y => y",
+        "(x) => [1, 2, 3] via (y) => y * x", "x => do { return x }", "x => do {\n  y = x\n  return y.k.j\n}", "x => x.a.b", "x => x[0][1]", "x => x(1)", "x => inputs.f(x)", "(a?, b) => [a, b]", "((x) => x)",
+        "x => \u{e9}", "x => \"\u{e9}\" + x", "x => \"\u{1f600}\u{1f600}\u{1f600}\u{1f600}\u{1f600}\u{1f600}\" + nope", "f = x => x", "output f = x => x", "// c", "x => x // c", "x => 1 / 0", "x => x!", "x => [x][5].k",
+        "x => convert(x, \"km\", \"zz\")", "x => format(\"{} {}\", x)", "(x) => (if x then nope else nope2)", "(x, x) => x", "x => x => x",
+    ];
+    for s in fsrcs {
+        let js = serde_json::to_string(s).unwrap();
+        docs.push(format!("{{\"f\": {{\"__blots_function\": {}}}}}", js));
+        docs.push(format!("{{\"f\": {{\"__blots_function\": {}, \"extra\": 1}}}}", js));
+        docs.push(format!("{{\"f\": [{{\"__blots_function\": {}}}], \"g\": {{\"h\": {{\"__blots_function\": {}}}}}}}", js, js));
+    }
+    for v in ["1", "null", "[\"x => x\"]", "{\"__blots_function\": \"x => x\"}", "true"] {
+        docs.push(format!("{{\"f\": {{\"__blots_function\": {}}}}}", v));
+    }
+    docs.push("not json".into());
+    docs.push("{\"a\": ".into());
+    docs.push("".into());
+    docs
+}
+
+fn wasm_input_cases() -> Vec<(String, J)> {
+    let mut out = vec![];
+    let bodies = ["x + 1", "x +", "", " ", "nope", "x => ", "x // c", "\u{e9}", "do { return x }", "x.k.j", "(", "1\n2", "// only a comment"];
+    for b in bodies {
+        let lam = json!({"Lambda": {"name": null, "args": [{"Required": "x"}], "body": b, "scope": null}});
+        let lam_scope = json!({"Lambda": {"name": "f", "args": [{"Optional": "x"}, {"Rest": "r"}], "body": b, "scope": {"k": {"Number": 1.0}, "g": {"BuiltIn": "nosuch"}}}});
+        for prog in ["output r = inputs.f(1)", "r = [1] via inputs.f", "inputs.f"] {
+            out.push((prog.to_string(), json!({"f": lam.clone()})));
+            out.push((prog.to_string(), json!({"f": lam_scope.clone()})));
+        }
+    }
+    for v in [json!({"BuiltIn": "nosuch"}), json!({"BuiltIn": "sum"}), json!({"Number": null}), json!({"List": [{"Number": 1.0}, {"String": "a"}]}), json!({"Record": {"a": {"Null": null}}}), json!("Null"), json!(5), json!({"Nope": 1})] {
+        out.push(("output r = inputs.f".to_string(), json!({"f": v})));
+    }
+    out.push(("1".to_string(), json!([1, 2])));
+    out.push(("1".to_string(), json!(null)));
+    out
+}
+
+struct CaseSpec {
+    family: &'static str,
+    class: String,
+    request: J,
+    display: String,
+}
+
+fn run_cases(ctx: &Ctx, cases: &[CaseSpec]) {
+    let nworkers = threads();
+    let next = std::sync::atomic::AtomicUsize::new(0);
+    std::thread::scope(|s| {
+        for _ in 0..nworkers {
+            s.spawn(|| {
+                let mut w = Worker::new("c01", None);
+                loop {
+                    let i = next.fetch_add(1, std::sync::atomic::Ordering::Relaxed);
+                    if i >= cases.len() {
+                        break;
+                    }
+                    let c = &cases[i];
+                    ctx.count(1);
+                    match w.ask_timeout(&c.request, std::time::Duration::from_secs(10)) {
+                        WorkerAnswer::Ok(a) => {
+                            if let Some(tags) = a["tags"].as_array() {
+                                for t in tags {
+                                    ctx.outcome(&format!("{}:{}", c.family, t.as_str().unwrap_or("?")));
+                                }
+                            }
+                            let probs: Vec<String> = a["p"].as_array().map(|x| x.iter().filter_map(|s| s.as_str().map(|s| s.to_string())).collect()).unwrap_or_default();
+                            ctx.outcome(if probs.is_empty() { "case-clean" } else { "case-with-problems" });
+                            let mut seen = std::collections::BTreeSet::new();
+                            for p in probs {
+                                // one violation per distinct stage / location
+                                let key: String = p.chars().take(90).collect();
+                                if !seen.insert(key) {
+                                    continue;
+                                }
+                                let kind = if p.contains("error location") || p.contains("error range") { "error-location" } else if p.starts_with("harness") { "harness" } else { "panic" };
+                                if kind == "harness" {
+                                    ctx.machinery_error(format!("{} ({})", p, c.display));
+                                    continue;
+                                }
+                                ctx.violation(Violation { kind: kind.into(), class: problem_class(&p, &c.class), input: c.display.clone(), expected: "a result or a reported error, with locations inside the text".into(), observed: p, case: c.request.clone() });
+                            }
+                        }
+                        WorkerAnswer::Died(how) => {
+                            ctx.outcome("case-killed-worker");
+                            ctx.violation(Violation { kind: "abort-or-hang".into(), class: c.class.clone(), input: c.display.clone(), expected: "a result or a reported error".into(), observed: how, case: c.request.clone() });
+                        }
+                    }
+                }
+            });
+        }
+    });
+}
+
+/// Class of a problem: the source location of a panic (file:line) or the stage of a bad location.
+fn problem_class(p: &str, fallback: &str) -> String {
+    if let Some(i) = p.find("panic at ") {
+        let rest = &p[i + 9..];
+        let loc: String = rest.chars().take_while(|c| *c != ' ').collect();
+        return format!("panic:{}", loc.trim_end_matches(':'));
+    }
+    if let Some(i) = p.find(']') {
+        return format!("{}|{}", &p[1..i], fallback);
+    }
+    fallback.to_string()
+}
+
+pub fn run(ctx: &Ctx, replay: Option<&J>) -> i32 {
+    if let Some(r) = replay {
+        let mut w = Worker::new("c01", None);
+        let ans = w.ask_timeout(&r["case"], std::time::Duration::from_secs(20));
+        match ans {
+            WorkerAnswer::Ok(a) => {
+                println!("case {}\n-> {}", r["case"], a);
+                let bad = a["p"].as_array().map(|p| !p.is_empty()).unwrap_or(false);
+                if bad {
+                    println!("VIOLATION property=C01 replay=<replayed>");
+                    return 1;
+                }
+                0
+            }
+            WorkerAnswer::Died(how) => {
+                println!("case {}\n-> worker died: {}\nVIOLATION property=C01 replay=<replayed>", r["case"], how);
+                1
+            }
+        }
+    } else {
+        run_all(ctx)
+    }
+}
+
+fn run_all(ctx: &Ctx) -> i32 {
+    let thorough = !ctx.quick();
+    let mut cases: Vec<CaseSpec> = vec![];
+    // ---- (a) every built-in x every argument tuple of the pool at every arity it accepts
+    let pool = value_pool(thorough);
+    for f in BuiltInFunction::all() {
+        if matches!(f.name(), "print" | "time_now") {
+            continue;
+        }
+        for n in arities(f) {
+            // three-argument tuples: full product in the thorough tier, a rotating third argument in quick
+            let tuples: Vec<Vec<&str>> = if n <= 2 || thorough {
+                words(&pool, n).into_iter().filter(|w| w.len() == n).collect()
+            } else {
+                let mut v = vec![];
+                for (i, a) in pool.iter().enumerate() {
+                    for (j, b) in pool.iter().enumerate() {
+                        for k in 0..4 {
+                            v.push(vec![*a, *b, pool[(i * 7 + j * 3 + k * 11) % pool.len()]]);
+                        }
+                    }
+                }
+                v
+            };
+            for t in tuples {
+                cases.push(CaseSpec {
+                    family: "builtin",
+                    class: format!("builtin:{}", f.name()),
+                    display: format!("{}({})", f.name(), t.join(", ")),
+                    request: json!({"t": "builtin", "f": f.name(), "a": t}),
+                });
+            }
+        }
+    }
+    ctx.set("builtin_cases", json!(cases.len()));
+    // ---- (b) source texts
+    let mut texts: Vec<(String, String)> = vec![];
+    let alpha = source_alphabet();
+    for w in words(&alpha, if thorough { 4 } else { 3 }) {
+        texts.push(("chars".into(), w.into_iter().collect()));
+    }
+    for w in words(&TOKENS, if thorough { 4 } else { 3 }) {
+        texts.push(("tokens-spaced".into(), w.join(" ")));
+        if w.len() >= 2 {
+            texts.push(("tokens-joined".into(), w.concat()));
+        }
+    }
+    let mut stats = GenStats::default();
+    let kinds = all_kinds();
+    let reps = representative_kinds();
+    let mut trees = single_slot(&kinds, &kinds, &mut stats);
+    trees.extend(spines(&[reps.clone(), reps.clone(), reps.clone()], &mut stats));
+    for t in &trees {
+        texts.push(("tree".into(), t.full()));
+    }
+    // corpus and its token-level deviations
+    let mut heavy: Vec<(String, String)> = vec![];
+    for (name, text) in crate::c07::corpus() {
+        // benchmark programs that legitimately compute for seconds are run once through the CLI
+        // (below) and get no deviations: a per-case time cap could not tell them from a hang
+        let t0 = std::time::Instant::now();
+        let probe = run_blots(&[text.clone()], None, None);
+        if t0.elapsed() > std::time::Duration::from_millis(150) || probe.timed_out {
+            heavy.push((name.clone(), text.clone()));
+            continue;
+        }
+        texts.push(("corpus".into(), text.clone()));
+        let toks = split_tokens(&text);
+        let step = if thorough { 1 } else { 5 };
+        for i in (0..toks.len()).step_by(step) {
+            // deletion
+            let mut v = toks.clone();
+            v.remove(i);
+            texts.push((format!("corpus-deletion:{}", name), v.concat()));
+            // replacement / insertion by every token of the alphabet (a rotating subset in quick)
+            for (ti, tok) in TOKENS.iter().enumerate() {
+                if thorough || (ti + i) % 11 == 0 {
+                    let mut r = toks.clone();
+                    r[i] = tok.to_string();
+                    texts.push((format!("corpus-replacement:{}", name), r.concat()));
+                    let mut ins = toks.clone();
+                    ins.insert(i, format!("{} ", tok));
+                    texts.push((format!("corpus-insertion:{}", name), ins.concat()));
+                }
+            }
+        }
+    }
+    for (name, text) in nesting_family() {
+        texts.push((format!("nesting:{}", name), text));
+    }
+    // loops whose length comes from the input
+    for t in ["1e15!", "9007199254740992!", "170!", "171!", "[1e15]!", "range(1e15)", "range(0, 4294967296)", "round(1, 1e15)", "round(1e300, 400)", "random(1e30)", "chunk([1], 1e30)", "slice([1], 0, 1e30)", "[1, 2][1e30]", "\"ab\"[(-1e30)]", "2 ^ 1e30", "1e308 * 10", "0 / 0", "format(\"{}{}{}\", 1)", "format(\"{\", 1)", "format(\"{0}{9}\", 1)", "split(\"abc\", \"\")", "replace(\"aaa\", \"\", \"b\")", "to_number(\"1e999\")", "to_number(\" 1\")", "convert(1, \"\", \"\")"] {
+        texts.push(("extras".into(), t.to_string()));
+    }
+    {
+        let mut seen = std::collections::HashSet::new();
+        texts.retain(|(_, t)| seen.insert(t.clone()));
+    }
+    ctx.set("source_texts", json!(texts.len()));
+    for (fam, t) in &texts {
+        let family: &'static str = if fam == "extras" { "extras" } else if fam.starts_with("corpus") { "corpus" } else if fam.starts_with("nesting") { "nesting" } else if fam.starts_with("tokens") { "tokens" } else if fam == "tree" { "tree" } else { "chars" };
+        cases.push(CaseSpec { family, class: fam.clone(), display: t.clone(), request: json!({"t": "src", "s": t}) });
+    }
+    // ---- (d) JSON inputs
+    for d in json_documents() {
+        cases.push(CaseSpec { family: "json", class: "json-input".into(), display: d.clone(), request: json!({"t": "json", "doc": d}) });
+    }
+    for (prog, inputs) in wasm_input_cases() {
+        cases.push(CaseSpec { family: "wasm-inputs", class: "wasm-inputs".into(), display: format!("{} with inputs {}", prog, inputs), request: json!({"t": "wasm-inputs", "prog": prog, "inputs": inputs}) });
+    }
+    ctx.set("cases", json!(cases.len()));
+    ctx.nontrivial_many(cases.iter().map(|c| fnv(&c.request.to_string())));
+    run_cases(ctx, &cases);
+
+    // ---- process level: the nesting family, JSON documents and every in-process crasher through the real CLI
+    let mut cli_jobs: Vec<(String, Vec<String>, Option<String>)> = vec![];
+    for (name, text) in nesting_family() {
+        let f = scratch_file("nest");
+        let _ = std::fs::write(&f, &text);
+        cli_jobs.push((format!("file:{}", name), vec![f.clone()], None));
+        cli_jobs.push((format!("inline:{}", name), vec![text.clone()], None));
+        cli_jobs.push((format!("stdin-e:{}", name), vec!["-e".into()], Some(text.clone())));
+        let o = scratch_file("nest-out");
+        cli_jobs.push((format!("format:{}", name), vec!["--format".into(), f, o], None));
+    }
+    for d in json_documents() {
+        cli_jobs.push((format!("json-flag:{}", truncate(&d, 60)), vec!["output t = typeof(inputs)\noutput k = keys(inputs)".into(), "-i".into(), d.clone()], None));
+        cli_jobs.push((format!("json-stdin:{}", truncate(&d, 60)), vec!["output a = inputs".into()], Some(d.clone())));
+        if d.contains("__blots_function") {
+            cli_jobs.push((format!("json-call:{}", truncate(&d, 60)), vec!["output r = inputs.f(1)".into(), "-i".into(), d.clone()], None));
+        }
+    }
+    for (name, text) in &heavy {
+        cli_jobs.push((format!("heavy-corpus:{}", name), vec![text.clone()], None));
+    }
+    ctx.set("heavy_corpus_files_cli_only", json!(heavy.iter().map(|h| h.0.clone()).collect::<Vec<_>>()));
+    for v in ctx.violations.lock().unwrap().iter() {
+        if let Some(s) = v.case.get("s").and_then(|s| s.as_str()) {
+            cli_jobs.push((format!("crasher:{}", truncate(s, 60)), vec![s.to_string()], None));
+        }
+    }
+    let results = par_map(&cli_jobs, |(_, args, stdin)| run_blots(args, stdin.as_ref().map(|s| s.as_bytes()), Some(8 << 20)));
+    for ((name, args, _), r) in cli_jobs.iter().zip(results.iter()) {
+        ctx.count(1);
+        ctx.outcome(if r.code == Some(0) { "cli-exit-0" } else { "cli-exit-nonzero" });
+        if r.crashed() {
+            ctx.violation(Violation { kind: "cli-crash".into(), class: name.split(':').next().unwrap_or("cli").to_string(), input: format!("blots {}", truncate(&args.join(" "), 300)), expected: "exit 0 or 1".into(), observed: r.describe(), case: json!({"t": "src", "s": args.last().cloned().unwrap_or_default()}) });
+        }
+    }
+    crate::proc::cleanup_scratch();
+
+    ctx.set("generator", json!({"states": stats.states, "transitions": stats.transitions, "complete_trees": stats.complete}));
+    ctx.set("value_pool", json!(pool));
+    for c in cases.iter().step_by(cases.len() / 8 + 1) {
+        ctx.sample(json!({"family": c.family, "case": truncate(&c.display, 160)}));
+    }
+    for t in ["builtin:builtin-ok", "builtin:builtin-error", "chars:parse-error", "chars:parse-ok", "tokens:eval-ok", "tokens:eval-error", "tree:eval-error", "corpus:eval-ok", "nesting:parse-ok", "json:json-valid"] {
+        ctx.require_outcome(t, 5);
+    }
+    ctx.require_outcome("case-clean", 1000);
+    ctx.assume("library stages run on a 1 GiB stack inside the worker (like the CLI's interpreter thread); the CLI runs under RLIMIT_STACK = 8 MiB; resource exhaustion is excluded by construction (no pool number lies in (10^6, 2^32])");
+    finish(
+        ctx,
+        "exploration",
+        "every built-in x every argument tuple of the boundary pool at every arity it accepts (var-args at 1..3); source texts: every string of length <= 3/4 over a 48-character alphabet, every token string of length <= 3/4 over a 44-token alphabet (spaced and joined), every tree of the parent x child and depth-3 representative families, the corpus with every single-token deletion / replacement / insertion, the nesting family (23 constructs at depth 1..64); JSON input documents incl. function objects with valid, truncated, non-lambda and non-string sources; serde-form wasm inputs with unparsable lambda bodies; every case through parse, AST conversion (with and without comments), evaluation in a session, value rendering / validation / JSON round trip, formatting at three widths, the four wasm entry points (native shim), in a crash-isolated worker with a 10 s cap; nesting family, JSON documents and all in-process crashers also through the real CLI (file, inline, -e, --format, -i, stdin); oracle: no panic / abort / hang, error spans inside the text they carry; distinct = distinct case requests",
+        true,
+        None,
+    )
+}
+
+/// Split a source text into tokens (maximal runs of word characters, single other characters,
+/// whitespace runs) such that concatenation gives the text back.
+fn split_tokens(text: &str) -> Vec<String> {
+    let mut out: Vec<String> = vec![];
+    let mut cur = String::new();
+    let mut cur_kind = 0u8;
+    for c in text.chars() {
+        let kind = if c.is_alphanumeric() || c == '_' { 1 } else if c == ' ' || c == '\t' { 2 } else { 3 };
+        if kind == 3 || kind != cur_kind {
+            if !cur.is_empty() {
+                out.push(std::mem::take(&mut cur));
+            }
+        }
+        cur.push(c);
+        cur_kind = kind;
+        if kind == 3 {
+            out.push(std::mem::take(&mut cur));
+            cur_kind = 0;
+        }
+    }
+    if !cur.is_empty() {
+        out.push(cur);
+    }
+    out
 }
